@@ -20,7 +20,7 @@ RULE = ("case = one point of the complete lattice functional{rootfinder,equilibr
         "+gd (plain, momentum), adam for minimize} x line search {on, off} x contractive family (real affine, exactly "
         "representable 'dyadic' affine, tanh with contraction 0.2 / 0.6, complex affine; quadratic, dyadic quadratic, "
         "log-cosh objective) x n x layout of the unknown {(n,), (n,1), (2,n)} x dtype {float64, complex128, float32} x "
-        "initial guess {zero, far, near, exact root} x (f_tol, x_tol) pair x maxiter {generous, 1, 2, 3} x value plane; "
+        "initial guess {zero, far, near, exact root, edge = residual 1.5 f_tol} x (f_tol, x_tol) pair x maxiter {generous, 1, 2, 3} x value plane; "
         "each case = one real solver call with a logging spy as the function; distinct = distinct observation "
         "(status, evaluation count, rounded residual, position of the returned tensor in the evaluation log)")
 ASSUMPTIONS = [
@@ -112,7 +112,9 @@ def cases(tier, seed):
                         for plane in planes:
                             if plane > 0 and (family in ("dyadic", "dquad") or dtype == "float32" or n == 1):
                                 continue  # no numeric content to vary / covered by plane 0
-                            for guess in ("zero", "far", "near", "exact"):
+                            for guess in ("zero", "far", "near", "exact", "edge"):
+                                if guess == "edge" and method in ("gd", "adam"):
+                                    continue      # their tolerances are on |df| / |dx|, not on a residual
                                 for (ft, xt) in _tols(dtype, "opt" if method in ("gd", "adam") else "rf"):
                                     for mi in maxiters:
                                         if plane > 0 and mi in (1, 3):
@@ -197,10 +199,23 @@ def _exc_class(o):
 def run_case(cfg):
     prob = Problem(cfg["family"], cfg["n"], cfg["shape"], cfg["dtype"], centred=True, plane=cfg["plane"],
                    seed=cfg["seed"])
-    y0 = prob.guess(cfg["guess"])
-    y0_copy = y0.clone()
     log = []
     fun, spy, opts, resid, ft, xt = _build_call(cfg, prob, log)
+    if cfg["guess"] == "edge":
+        # boundary value of the stopping test: a warm start whose own residual is 1.5 f_tol (so that one more
+        # iterate passes the f_tol test while the start does not)
+        ys = prob.ystar
+        u = (prob.guess("near") - ys) * 2.0 ** 10
+        d = 2.0 ** -10
+        for _ in range(4):
+            rr = flat_norm(resid((ys + d * u).contiguous()))
+            if not (rr > 0):
+                break
+            d = d * 1.5 * ft / rr
+        y0 = (ys + d * u).contiguous()
+    else:
+        y0 = prob.guess(cfg["guess"])
+    y0_copy = y0.clone()
     eps = _eps(cfg["dtype"])
     method = cfg["method"]
     generous = cfg["maxiter"] == "gen"
